@@ -96,6 +96,9 @@ NEAR_CORNER_BAND = 2e-6    # |d^2 - 1| of a pixel corner in the unit-circle fram
 NEAR_CORNER_ATOL = 5e-7    # x max(1, a*b), added to EXACT_ATOL
 
 
+ON_CORNER_ATOL = 1e-8      # x max(1, a): consequence of the kernel's own 1e-10 'on the circle' tolerance
+
+
 def _exact_atol(size):
     """scaling of rounding errors with the shape size: ~1e-16 * size^2 of a pixel (measured 1.9e-11 at 400)."""
     return EXACT_ATOL * max(1.0, (size / 100.0) ** 2)
@@ -165,6 +168,8 @@ def _wrap_kernel(fn, kname):
                                  kernel='pyx_twin' if kname.startswith('pyx_twin') else 'compiled')
                     if extra['corner_near_ellipse']:
                         tol += NEAR_CORNER_ATOL * max(1.0, rest[0] * rest[1])
+                    if extra['corner_on_ellipse']:
+                        tol += ON_CORNER_ATOL * max(1.0, rest[0], rest[1])
                 if out.min() < -tol or out.max() > 1 + tol:
                     _fail(cname, why='exact weight outside [0,1]', min=float(out.min()), max=float(out.max()),
                           _mech=extra)
@@ -781,12 +786,19 @@ def _judge_weights(case, data, box, spec, xc, yc, outer, inner, method, s, mech,
             fl = _kernel_special_flags(np.arange(box[0], box[1] + 1) - 0.5 - xc,
                                        np.arange(box[2], box[3] + 1) - 0.5 - yc, shp)
             mech = dict(mech, **fl)
-            if fl['corner_on_ellipse'] or fl['edge_tangent_to_ellipse']:
-                fkey += '+corner_on_boundary_or_tangent_edge'
+            if fl['chord_edge_at_on_corner'] or fl['edge_tangent_to_ellipse']:
+                fkey += '+corner_on_boundary_with_chord_or_tangent_edge(known defect)'
+            elif fl['corner_on_ellipse']:
+                fkey += '+corner_on_boundary_no_chord'
             elif fl['corner_near_ellipse']:
                 fkey += '+corner_within_1e-6_of_boundary'
             if fl['corner_near_ellipse']:
                 atol += NEAR_CORNER_ATOL * sum(max(1.0, a_ * b_) for a_, b_, _t in shp)
+            if fl['corner_on_ellipse']:
+                # the kernel deliberately treats a vertex with |d^2-1| < 1e-10 (unit frame) as lying on the circle:
+                # the boundary is displaced by <= 5e-11 along an edge of unit-frame length ~1/b, i.e. by up to
+                # ~1e-10 * a of a pixel (measured 1.0e-9 at a = 47.6); judged with 100x that
+                atol += ON_CORNER_ATOL * sum(max(1.0, a_, b_) for a_, b_, _t in shp)
             for k_, v_ in fl.items():
                 if v_:
                     case.note('ellipse_exact_masks:' + k_)
